@@ -127,4 +127,37 @@ theorem difference_eq (a b : List Entry) : Generated.Go.entryDifference a b = en
   · exact r2
   · exact r2
 
+/-! ## `fromEntry` around the fetch: the fetch length and what is made of the fetched entries = `loadEntries` -/
+
+theorem fromEntryLength_eq (nOpt : Option Int) (source : List Entry) :
+    Generated.Go.fromEntryLength nOpt source =
+      (if nOpt.getD (-1) > -1 then max (nOpt.getD (-1)) (source.length : Int) else -1) := by
+  unfold Generated.Go.fromEntryLength
+  cases nOpt with
+  | none => simp
+  | some v =>
+    simp only [Option.isSome_some, Bool.true_and, Option.getD_some, C19Gen.maxInt_eq]
+    by_cases h : v > -1 <;> simp [h]
+
+/-- **the fourth loader's glue, translated, is the model's `loadEntries`** (no `Exclude` list; the fetch result is a
+    parameter): the same entries in the same order under the log id of the last one, or — when nothing at all is
+    left — the panic of the code (`none`) -/
+theorem fromEntry_eq (clockId : Bytes) (k : SortKind) (source fetched : List Entry) (nOpt : Option Int) :
+    (Generated.Go.fromEntryTail [] source fetched (Generated.Go.fromEntryLength nOpt source)).map
+        (fun r => newLog r.1 clockId k r.2 []) =
+      loadEntries clockId k source fetched (nOpt.getD (-1)) := by
+  rw [fromEntryLength_eq]
+  unfold Generated.Go.fromEntryTail loadEntries
+  simp only [List.append_nil, entryLastNKeeping_eq, difference_eq]
+  generalize (if nOpt.getD (-1) > -1 then max (nOpt.getD (-1)) (source.length : Int) else -1) = len
+  generalize goSort clockAsc (omFromList (source ++ fetched)) = uniques
+  have hsl : (if decide (len > -1) = true then lastNKeeping len uniques source else uniques) =
+      (if len > -1 then lastNKeeping len uniques source else uniques) := by
+    by_cases h : len > -1 <;> simp [h]
+  rw [hsl]
+  generalize (if len > -1 then lastNKeeping len uniques source else uniques) = sliced
+  rw [entrySliceRange_drop]
+  simp only
+  cases (entryDifference sliced source ++ List.drop (entryDifference sliced source).length sliced).getLast? <;> rfl
+
 end Model.SlicesGen
